@@ -63,6 +63,8 @@ func (d *dialer) Dial() (transport.Pipe, error) {
 }
 
 func (d *dialer) SetOption(n string, v interface{}) error {
+	d.lock.Lock()
+	defer d.lock.Unlock()
 	switch n {
 	case mangos.OptionMaxRecvSize:
 		if b, ok := v.(int); ok {
@@ -196,14 +198,20 @@ func (l *listener) Listen() error {
 }
 
 func (l *listener) Address() string {
-	if b := l.bound; b != nil {
+	l.lock.Lock()
+	b := l.bound
+	l.lock.Unlock()
+	if b != nil {
 		return "tls+tcp://" + b.String()
 	}
 	return "tls+tcp://" + l.addr
 }
 
 func (l *listener) Accept() (transport.Pipe, error) {
-	if l.l == nil {
+	l.lock.Lock()
+	ln := l.l
+	l.lock.Unlock()
+	if ln == nil {
 		return nil, mangos.ErrClosed
 	}
 	return l.hs.Wait()
@@ -211,8 +219,11 @@ func (l *listener) Accept() (transport.Pipe, error) {
 
 func (l *listener) Close() error {
 	l.once.Do(func() {
-		if l.l != nil {
-			_ = l.l.Close()
+		l.lock.Lock()
+		ln := l.l
+		l.lock.Unlock()
+		if ln != nil {
+			_ = ln.Close()
 		}
 		l.hs.Close()
 		close(l.closeQ)
